@@ -207,6 +207,7 @@ def C18(tier):
              gen=dict(count=(2500, 25000), params={"pair": "1"})),
         dict(name="select_pairs", family="sort", trace="Trace_Sort", trace_constants=FIX, profile="dev",
              gen=dict(count=(2500, 25000), params={"kinds": "bulkpair", "oor_den": "0"})),
+        num_stage("moments_and_axis_forms", "c06/c07", (3000, 30000)),
     ]
     return dict(models=[quantile_models(tier)[k] for k in (0, 1, 3)] + [
                     dict(module="Bulk", name="MC_Bulk_vs_single",
@@ -408,7 +409,75 @@ def C17(tier):
                 trusted=["mapping of error values to (variant, payload) records in the harness"])
 
 
-PLANS = {"C17": C17, "C11": C11, "C13": C13, "C12": C12, "C05": C05, "C14": C14, "C15": C15, "C02": C02, "C16": C16, "C04": C04, "C01": C01, "C18": C18, "C19": C19, "C03": C03}
+NUM_ASSUME = [
+    "inputs are exactly representable grid values (small integers / 4, plus a power-of-two offset); float results are compared with the exact "
+    "rational value at a quantum of 2^-qe (qe = 6..16, chosen so the exact numerators fit TLC's 32-bit integers): algebraic mistakes, wrong "
+    "normalisers, wrong pairing, catastrophic cancellation and overflow are caught, roundoff-level precision regressions are not",
+]
+
+
+def num_stage(name, kinds, counts, **kw):
+    d = dict(name=name, family="num", trace="Trace_Num", profile="dev", gen=dict(count=counts, params={"kinds": kinds}))
+    d.update(kw)
+    return d
+
+
+def summary_models(tier):
+    return [
+        dict(module="Summary", name="MC_Summary",
+             cfg=dict(constants=dict(MaxN=q(tier, 3, 4), MaxR=q(tier, 2, 3), MaxP=q(tier, 4, 5), FixF5=True), invariants=["MomentAlgebraOK", "WestOK", "ShiftOK"])),
+    ]
+
+
+def C06(tier):
+    return dict(models=summary_models(tier), stages=[num_stage("means", "c06", (3000, 30000)), num_stage("means_release", "c06", (1000, 8000), profile="release")],
+                nontrivial=lambda o: len(o.get("r", [])) >= 2, exhaustive=False,
+                rule="mean, weighted_sum, weighted_mean (+ per-axis forms), harmonic_mean (integers 1..8), geometric_mean (powers of two over "
+                     "+-300 binades); f64/f32 grid data with offsets to 2^30, i32/i64/u8 exact; data and weights in independently chosen layouts "
+                     "(C/F/sliced/stepped/reversed/permuted), every axis; non-trivial = >= 2 elements",
+                assumptions=NUM_ASSUME, trusted=["quantisation round(res * 2^qe) and base subtraction in the harness"])
+
+
+def C07(tier):
+    return dict(models=summary_models(tier), stages=[num_stage("moments", "c07", (4000, 40000))],
+                nontrivial=lambda o: len(o.get("r", [])) >= 2, exhaustive=False,
+                rule="weighted_var / weighted_std (+ per-axis) with integer weights incl. zeros, ddof in {0, 1/2, 1}, offsets to 2^20; central_moment(s) of "
+                     "orders 0..8 on tiny integer data with offsets to 2^45 (orders <= 4); skewness and kurtosis in squared / cross-multiplied form; "
+                     "order 0 exactly 1, order 1 exactly 0, variance >= -quantum",
+                assumptions=NUM_ASSUME, trusted=["quantisation in the harness"])
+
+
+def C08(tier):
+    return dict(models=summary_models(tier)[:0] + [
+                    dict(module="Summary", name="MC_Summary", cfg=dict(constants=dict(MaxN=3, MaxR=2, MaxP=2, FixF5=True), invariants=["ShiftOK"]))],
+                stages=[num_stage("cov_pearson", "corr", (2500, 25000))],
+                nontrivial=lambda o: len(o.get("rows", [])) >= 2, exhaustive=False,
+                rule="1..4 variables x 2..5 observations of small integers (offsets to 2^20), ddof in {0, 1/2, 1}, f32/f64, C/F/sliced/transposed inputs; "
+                     "cov against the exact rational, symmetry, diagonal; pearson by r^2 var_i var_j = cov_ij^2 with sign, diagonal 1, range; "
+                     "invariance under scaling a variable by 2^s (|s| to 400) plus a shift, sign flip under negation",
+                assumptions=NUM_ASSUME, trusted=["quantisation in the harness"])
+
+
+def C09(tier):
+    return dict(models=[dict(module="Deviation", name="MC_Deviation", cfg=dict(constants=dict(MaxN=q(tier, 3, 4), MaxV=2), invariants=["LawsOK"]))],
+                stages=[num_stage("deviation", "dev", (2500, 25000))],
+                nontrivial=lambda o: len(o.get("a", [])) >= 2, exhaustive=False,
+                rule="pairs of same-shaped arrays (1..3-D) in independently chosen layouts, i32/i64/BigInt exact and f32/f64 on the quarter grid (exact "
+                     "after scaling); all ten measures, with swapped and with identical arguments",
+                assumptions=NUM_ASSUME[:1], trusted=["quantisation in the harness"])
+
+
+def C10(tier):
+    return dict(models=[dict(module="Entropy", name="MC_Entropy", cfg=dict(constants=dict(MaxN=q(tier, 3, 3), M=2), invariants=["GibbsOK", "ZeroTermOK"]))],
+                stages=[num_stage("entropy", "ent", (2500, 25000))],
+                nontrivial=lambda o: len(o.get("a", [])) >= 2, exhaustive=False,
+                rule="dyadic distributions a/2^m (<= 6 cells, normalised or not) with zeros in p and/or q, NaN at any position of p or q (incl. under a "
+                     "zero of p), negative q, f32/f64, 1..3-D shapes, p and q in different layouts; values against a 2^-20 table of ln k, identities, "
+                     "NaN / infinity exactness",
+                assumptions=["ln is judged through a table of round(ln k * 2^20), k <= 32, at a tolerance of (n+2) * 2^-18"], trusted=["quantisation in the harness"])
+
+
+PLANS = {"C06": C06, "C07": C07, "C08": C08, "C09": C09, "C10": C10, "C17": C17, "C11": C11, "C13": C13, "C12": C12, "C05": C05, "C14": C14, "C15": C15, "C02": C02, "C16": C16, "C04": C04, "C01": C01, "C18": C18, "C19": C19, "C03": C03}
 
 HOOK_COMMITS = ["6df096f"]
 
